@@ -35,7 +35,7 @@ pub open spec fn vec_fr_fits(s: Seq<u8>) -> bool { s.len() >= 8 && 8 + 32 * dec_
             input@.len() <= usize::MAX, vec_fr_fits(input@), len == dec_u64(input@, 0), el_size == 32,
             res@.len() == i, read == 8 + 32 * i,
             forall|j: int| 0 <= j < i ==> (#[trigger] res@[j]).view() == dec_fr(input@, 8 + 32 * j),
-//@before `let (curr_el, _) =`
+//@before `let (curr_el`
         proof {
             let a = 8 + 32 * i;
             assert(input@.subrange(a, a + 32).subrange(0, 32) =~= input@.subrange(a, a + 32));
